@@ -77,7 +77,7 @@ Print Assumptions C14_no_misroute_partial.
 
 (* Refutation of the full statement (finding C14-unbracketed-ipv6-misroute): "http://::1/x" is not a rendering
    of any well-formed target, has the lenient shape, and the proxy connects to [::]:1 — an address and a
-   port the target does not name.  Same for "CONNECT :::443" -> ("::", 443). *)
+   port the target does not name (the un-bracketed literal ::1 plainly means loopback on the default port). *)
 Theorem C14_lenient_refuted : forall ipv,
   exists raw call,
     (forall t, wf_target t = true -> render_target t <> raw) /\
@@ -88,6 +88,9 @@ Theorem C14_lenient_refuted : forall ipv,
 Proof. exact lenient_refuted. Qed.
 Print Assumptions C14_lenient_refuted.
 
+(* Also accepted although outside the grammar: "CONNECT :::443" -> ("::", 443).  This one is routed to what the
+   text plainly means (un-bracketed literal + mandatory port), so it is a recorded leniency, not a finding; it
+   still refutes "everything outside the grammar is rejected". *)
 Theorem C14_lenient_connect_refuted : forall ipv,
   exists raw call,
     (forall t, wf_target t = true -> render_target t <> raw) /\
